@@ -75,7 +75,7 @@ func init() {
 	register("C11", "", detectors[0])
 	register("C01", "", ruleDedup)
 	register("C05", "", ruleRoutingPairs, ruleNodeFieldSignature, ruleNodeLookupScope)
-	register("C04", "", ruleNodeFieldSignature, ruleNodeLookupScope)
+	register("C04", "", ruleNodeFieldSignature, ruleNodeLookupScope, ruleRoutingExemptions)
 	register("C02", "", ruleNodeLookupScope, ruleRoutingTableWrites)
 	register("C04", "", ruleRoutingTableWrites)
 	register("C13", "", ruleRoutingTableWrites)
@@ -90,6 +90,7 @@ func init() {
 	register("C19", "", ruleVariableWrites, ruleEncodings("upload"), ruleUploadParts, ruleMapRanges(scUpload, 1))
 	register("C01", "", ruleEncodings("insertion"))
 	register("C14", "", ruleKeyReadSet)
+	register("C13", "", ruleKeyReadSet)
 	register("C02", "", ruleVariableTraversals)
 	register("C02", "", ruleASTWrites)
 	register("C14", "", ruleASTWrites)
@@ -127,5 +128,17 @@ func init() {
 	register("C01", "", ruleReturnedDataScrubbed)
 	register("C15", "", ruleBuiltinLists)
 	register("C05", "", ruleRootDefinitionIdentity)
+	// round 6: rules that caught a change aimed at another property only
+	register("C13", "", ruleCancelOwnership)                    // siblings cancelled on the first failure: the set of errors depends on timing
+	register("C10", "", ruleGlobalState, ruleDecodeTargetScope) // pooled answers: a service's errors mixed with an earlier answer's
+	register("C09", "", ruleDecodeTargetScope, ruleGlobalState) // a failed event delivered with the previous event's data
+	register("C05", "", ruleASTWritesIn("merger"))              // a merge that writes into its inputs is not repeatable / order-independent
+	register("C04", "", r6(scIntrospect, 5))                    // a swallowed introspection failure shifts schemas against their URLs
+	register("C02", "", ruleMultiplicity)                       // a re-sent request goes out after its uploads were extracted
+	register("C17", "", ruleExecutionRequestIdentity)
+	register("C01", "", ruleExecutionRequestIdentity)
+	register("C02", "", ruleExecutionRequestIdentity)
+	register("C12", "", ruleNextRequestsSearched)
+	register("C01", "", ruleNextRequestsSearched)
 	register("X6", "debug: R6 over whole module", ruleErr(errScope{label: "all", pkgs: []string{"pebbles", "common", "executor", "format", "gqlerrors", "introspection", "merger", "planner", "queryer", "requests"}}))
 }
